@@ -563,12 +563,23 @@ def r13f(ctx):
     mm = repo.cls('MinMaxWeight')
     init = mm.methods['__init__']
     sym_fn = None
-    for p in returning(paths(repo, init)):
+    from ..util import paths_split
+
+    def pick(t):
+        # element selection from a tuple display
+        if isinstance(t, tuple):
+            t = tuple(pick(x) for x in t)
+            if t and t[0] == 'sub' and t[1][0] == 'tuple' and t[2][0] == 'const' and \
+                    isinstance(t[2][1], int) and t[2][1] < len(t[1][1]):
+                return t[1][1][t[2][1]]
+        return t
+    for p in returning(paths_split(repo, init)):
         for e in p.events:
+            v = pick(e.data[2]) if e.kind == 'setattr' else None
             if e.kind == 'setattr' and e.data[0] == SELF and e.data[1] == 'compute_min_max' and \
-                    any(a == ('param', 'symmetric') and v for a, v in p.assumptions) and \
-                    e.data[2][0] == 'attr' and e.data[2][1] == SELF:
-                sym_fn = repo.find_method(mm, e.data[2][2])
+                    any(a == ('param', 'symmetric') and pol for a, pol in p.assumptions) and \
+                    v[0] == 'attr' and v[1] == SELF:
+                sym_fn = repo.find_method(mm, v[2])
     if sym_fn is None:
         raise AnalysisError('R13f: symmetric range function of MinMaxWeight not found')
     inp = ('param', sym_fn.params[1])
